@@ -20,6 +20,9 @@ MUTS = [
   "        for act in self._tracts:  # transit sub-context of segue precur\n            act()\n\n        framer.exit(exits) #exit uncommon frames in near outline reversed in place\n        framer.rexit(reexens[:]) #make copy since reversed in place\n        framer.renter(reexens)\n        framer.enter(enters)\n",
   "        framer.exit(exits) #exit uncommon frames in near outline reversed in place\n        framer.rexit(reexens[:]) #make copy since reversed in place\n        framer.renter(reexens)\n        framer.enter(enters)\n        for act in self._tracts:  # transit sub-context of segue precur\n            act()\n"),
  ("C20","M6-key-home-frame","ioflo/base/needing.py","            parts.append(frame.name)  # default is framername.framename","            parts.append(self._act.frame.name)  # default is framername.framename"),
+ ("C20","M7-tracts-before-checkenter","ioflo/base/acting.py",
+  "        #check enters, if successful, perform transition\n        if not framer.checkEnter(enters, exits):\n            return None\n",
+  "        for act in self._tracts:\n            act()\n        #check enters, if successful, perform transition\n        if not framer.checkEnter(enters, exits):\n            return None\n"),
  ("C11","M1-counter-restarts-at-1","ioflo/base/framing.py","        self.recurred = 0\n        self.updateRecurred()","        self.recurred = 1\n        self.updateRecurred()"),
  ("C11","M2-timeout-strict","ioflo/base/building.py",
   """        need = self.makeImplicitDirectFramerNeed( name="elapsed",
